@@ -491,16 +491,30 @@ func ruleForeignEvents(c *Ctx, r *Rule) {
 				// the pool's own constructor: a function returning the fresh event, called only from pool types
 				if ctor == nil && fn.Signature.Results().Len() == 1 && fn.Signature.Recv() == nil {
 					callersOK := len(c.sitesOf(fn)) > 0
-					for _, cs := range c.sitesOf(fn) {
-						pf := cs.Parent()
-						okc := false
+					poolish := func(pf *ssa.Function) bool {
 						for f := pf; f != nil; f = f.Parent() {
 							if rn := recvNamed(f); rn != nil && types.Implements(types.NewPointer(rn), pr.iface.Underlying().(*types.Interface)) {
-								okc = true
+								return true
 							}
 							if f.Signature.Recv() == nil && f.Signature.Results().Len() == 1 {
 								if rn := namedOf(f.Signature.Results().At(0).Type()); rn != nil && types.Implements(types.NewPointer(rn), pr.iface.Underlying().(*types.Interface)) {
-									okc = true
+									return true
+								}
+							}
+						}
+						return false
+					}
+					for _, cs := range c.sitesOf(fn) {
+						pf := cs.Parent()
+						okc := poolish(pf)
+						if !okc && len(c.sitesOf(pf)) == 0 {
+							// a named function that only wraps the constructor and is used as a value (sync.Pool.New)
+							// inside pool code
+							uses := c.funcValueUses(pf)
+							okc = len(uses) > 0
+							for _, u := range uses {
+								if !poolish(u.Parent()) {
+									okc = false
 								}
 							}
 						}
